@@ -120,6 +120,33 @@ func oddObjects() []oddObj {
 			}
 			return map[string]interface{}{"F": top, "G": 1}
 		}()},
+		{"interface field pointing at itself", func() interface{} {
+			type rec struct {
+				F     interface{}
+				Extra interface{}
+			}
+			r := &rec{}
+			r.Extra = &r.Extra
+			r.F = &r.Extra
+			return r
+		}()},
+		{"pointer-to-pointer cycle", func() interface{} {
+			type cyc struct {
+				F *interface{}
+				G **cyc
+			}
+			var i interface{}
+			i = &i
+			c := &cyc{F: &i}
+			c.G = &c
+			return c
+		}()},
+		{"map value pointing back at the map through an interface", func() interface{} {
+			m := map[string]interface{}{"G": 1}
+			var i interface{} = m
+			m["F"] = &i
+			return m
+		}()},
 		{"self-referencing struct pointer", func() interface{} {
 			type node struct {
 				F    int
